@@ -168,6 +168,25 @@ class Machine:
         self.written_mem.append(a)
 
 
+# the registers that exist (the printer also has names for numbers beyond the register file)
+VALID_REGS = {"x86_64": {"rax", "rbx", "rcx", "rdx", "rsi", "rdi", "rbp", "rsp"} | {"r%d" % i for i in range(8, 16)},
+              "aarch64": {"X%d" % i for i in range(0, 31)} | {"SP", "XZR"}}
+
+
+def _check_registers(m, arch, ops):
+    ok = VALID_REGS.get(arch)
+    if not ok:
+        return
+    for o in ops:
+        import re as _re
+        names = [o[1]] if o[0] == "reg" else ([o[1]] if o[0] == "mem" and isinstance(o[1], str) and _re.fullmatch(r"r\w+|[XW]\d+", o[1]) else [])
+        for nm in names:
+            if isinstance(nm, str) and nm not in ok and not nm.startswith(("Register", "config::")):
+                e = "register %s does not exist on %s: the assembler rejects the instruction" % (nm, arch)
+                if e not in m.errors:
+                    m.errors.append(e)
+
+
 def operands(ctx, arch, code):
     """Code ADT value -> (variant, mnemonic, [operands]) using the folded print template (x86-64 / AArch64)"""
     tmpl = backend.code_templates(ctx, arch).get(code.variant)
@@ -487,6 +506,7 @@ def run(ctx, arch, codes, machine=None):
             m.events.append(("label", c.fields.get("0")))
             continue
         variant, mn, ops = operands(ctx, arch, c)
+        _check_registers(m, arch, ops)
         (step_x86 if arch == "x86_64" else step_a64)(m, variant, mn, ops)
     return m
 
@@ -581,6 +601,7 @@ def explore(ctx, arch, codes, m0, max_paths=4000, facts0=None, start=0):
                 step_rv(m, c.variant, rv_operands(c))
             else:
                 variant, mn, ops = operands(ctx, arch, c)
+                _check_registers(m, arch, ops)
                 (step_x86 if arch == "x86_64" else step_a64)(m, variant, mn, ops)
             if len(m.events) == n_ev:
                 continue
